@@ -239,3 +239,112 @@ def refute_search(mod, proof, violations, ix, workdir, seed):
 
 
 refuters = {p.name: refute_search for p in proofs}
+
+
+# ---------------------------------------------------------------------------------------------
+# FilteredOrderedAttributeMap (the series key): "equal sets always hash equally" rests on the representation invariant hash_ == H(content),
+# which every constructor has to establish AFTER the content is complete; "after the view's attribute filter has removed the keys it does not
+# allow": a delivered pair is stored exactly when there is no processor or the processor allows its key (then: last write wins).
+from . import c04 as _c04
+TU_FM = ("tu_filtered_map", '#include "%s/sdk/src/metrics/state/filtered_ordered_attribute_map.cc"\n' % R.core.REPO)
+FM_PRE = _c04.AM_PRE + r"""
+unsigned long g_hash_calls, g_hash_value, g_hash_at_ops;     /* GetHashForAttributeMap boundary: number of calls, the value it returned, map operations made before it */
+unsigned long g_isp_calls; const void *g_isp_proc; const char *g_isp_key; int g_isp_ret;   /* AttributesProcessor::isPresent boundary */
+unsigned long g_mapeq_calls; int g_mapeq_ret;
+#define FM_GHOSTS AM_GHOSTS, g_hash_calls, g_hash_at_ops, g_isp_calls, g_isp_proc, g_isp_key
+"""
+FM_POST = _c04.AM_POST.replace("g_fe_src = 0; }", "g_fe_src = 0; unsigned long h1, h2, h3; int r1, r2; g_hash_calls = h1; g_hash_value = h2; g_isp_calls = h3; g_isp_ret = r1; g_mapeq_ret = r2; g_hash_at_ops = 0; g_isp_proc = 0; g_isp_key = 0; g_mapeq_calls = 0; }") + r"""
+static unsigned long xc_hash_of_map(const void *m) { g_hash_calls++; g_hash_at_ops = g_umap_ops; return g_hash_value; }
+static bool xc_proc_isPresent(const void *proc, string_view key) { g_isp_calls++; g_isp_proc = proc; g_isp_key = key.data_; return g_isp_ret != 0; }
+static bool xc_map_equal(const void *a, const void *b) { g_mapeq_calls++; return g_mapeq_ret != 0; }
+"""
+
+
+def _fm_map_type(em, base, targs, name):
+    if base == "std::map":
+        return CT("xc_umap")
+    return None
+
+
+def _configure_fm(cfg):
+    _c04._configure_am(cfg)
+    cfg.type_handlers.insert(0, _fm_map_type)
+    cfg.ext_methods["std::map::operator[]"] = cfg.ext_methods["std::unordered_map::operator[]"]
+    cfg.ext_methods["std::map::emplace"] = cfg.ext_methods["std::unordered_map::emplace"]
+    cfg.ext_methods["std::map::insert_or_assign"] = cfg.ext_methods["std::unordered_map::insert_or_assign"]
+    cfg.opaque_records["sdk::metrics::AttributesProcessor"] = "xc_opaque"
+    unp = lambda r: (r["node"] if isinstance(r, dict) and r.get("xc_is_ptr") else r)
+    cfg.ext_q["GetHashForAttributeMap"] = lambda em, node, recv, args: "xc_hash_of_map((const void *)%s)" % em.addr_of(args[0])
+    cfg.ext_q["AttributesProcessor::isPresent"] = lambda em, node, recv, args: "xc_proc_isPresent((const void *)%s, %s)" % (em.expr(unp(recv)), em.expr(args[0]))
+    cfg.ext_methods["std::map::operator=="] = lambda em, recv, args, n: "xc_map_equal((const void *)&(%s), (const void *)%s)" % (recv, em.addr_of(args[0]))
+    cfg.ext_q["std::operator=="] = lambda em, node, recv, args: "xc_map_equal((const void *)%s, (const void *)%s)" % (em.addr_of(args[0]), em.addr_of(args[1]))
+
+
+FM = "FilteredOrderedAttributeMap"
+FM_C2 = FM + "_ctor_2_ccommon_KeyValueIterable_csdk_metrics_AttributesProcessor"
+HASH_LAST = "__CPROVER_return_value.hash_ == g_hash_value && g_hash_calls == __CPROVER_old(g_hash_calls) + 1 && g_hash_at_ops == g_umap_ops"
+contracts_fm = {
+    FM + "_ctor_0": {"pre": "__CPROVER_requires(g_keys_made == 0)\n__CPROVER_assigns(FM_GHOSTS)\n"
+        "__CPROVER_ensures(" + HASH_LAST + " && g_umap_ops == __CPROVER_old(g_umap_ops))\n"},
+    FM + "_UpdateHash": {"pre": "__CPROVER_requires(__CPROVER_is_fresh(self, sizeof(*self)))\n__CPROVER_assigns(self->hash_, g_hash_calls, g_hash_at_ops)\n"
+        "__CPROVER_ensures(self->hash_ == g_hash_value && g_hash_calls == __CPROVER_old(g_hash_calls) + 1)\n"},
+    FM + "_op_eq": {"pre": "__CPROVER_requires(__CPROVER_is_fresh(self, sizeof(*self)) && __CPROVER_is_fresh(other, sizeof(*other)))\n__CPROVER_assigns(g_mapeq_calls)\n"
+        # equal as series keys exactly when the contents are equal (given the invariant hash_ == H(content), equal contents have equal hashes)
+        "__CPROVER_ensures(__CPROVER_return_value == (self->hash_ == other->hash_ && g_mapeq_ret != 0))\n"},
+}
+
+FM_LAM = FM_C2 + "__l1"
+contracts_fm[FM_LAM] = {"pre":
+    "__CPROVER_requires(__CPROVER_is_fresh(self, sizeof(*self)) && __CPROVER_is_fresh(xc_cp_processor, sizeof(*xc_cp_processor)) && g_keys_made == 0)\n"
+    "__CPROVER_requires(*xc_cp_processor == NULL || __CPROVER_is_fresh(*xc_cp_processor, sizeof(xc_opaque)))\n"
+    "__CPROVER_assigns(AM_GHOSTS, g_isp_calls, g_isp_proc, g_isp_key)\n"
+    # the attribute filter: without a processor every pair is stored; with one, the processor is asked about exactly this key and the pair is
+    # stored exactly when it allows the key (stored = value under the key, replacing an earlier one); a dropped pair leaves the map alone
+    "__CPROVER_ensures(*xc_cp_processor == NULL ==> g_isp_calls == __CPROVER_old(g_isp_calls))\n"
+    "__CPROVER_ensures(*xc_cp_processor != NULL ==> (g_isp_calls == __CPROVER_old(g_isp_calls) + 1 && g_isp_proc == *xc_cp_processor && g_isp_key == key.data_))\n"
+    "__CPROVER_ensures((*xc_cp_processor == NULL || g_isp_ret) ==> (g_slot_present && g_slot_val.id == value.id && g_umap_ops == __CPROVER_old(g_umap_ops) + 1 && g_key_data == key.data_ && g_key_len == key.length_))\n"
+    "__CPROVER_ensures((*xc_cp_processor != NULL && !g_isp_ret) ==> (g_umap_ops == __CPROVER_old(g_umap_ops) && g_slot_present == __CPROVER_old(g_slot_present) && g_slot_val.id == __CPROVER_old(g_slot_val.id)))\n"
+    "__CPROVER_ensures(__CPROVER_return_value)\n"}
+contracts_fm[FM_C2] = {"pre":
+    "__CPROVER_requires(__CPROVER_is_fresh(attributes, sizeof(*attributes)) && (processor == NULL || __CPROVER_is_fresh(processor, sizeof(*processor))) && g_keys_made == 0)\n"
+    "__CPROVER_assigns(FM_GHOSTS, g_fe_calls, g_fe_src, g_cb_calls)\n"
+    # the iterable is walked once, and the hash is taken from the finished content (no map operation after it)
+    "__CPROVER_ensures(g_fe_calls == __CPROVER_old(g_fe_calls) + 1 && g_fe_src == attributes)\n"
+    "__CPROVER_ensures(" + HASH_LAST + ")\n"}
+
+proofs_fm = [
+    Proof("FilteredMap_ctor_filter_callback", [(FM + "::" + FM, 2, "const common::KeyValueIterable &")], enforce=FM_LAM,
+          desc="FilteredOrderedAttributeMap(iterable, processor): a delivered pair is stored exactly when the filter allows its key; last write wins"),
+    Proof("FilteredMap_ctor_filter", [(FM + "::" + FM, 2, "const common::KeyValueIterable &")], enforce=FM_C2, replace=[FM_LAM],
+          desc="... and the hash is computed once, after the content is complete"),
+    Proof("FilteredMap_ctor_default", [(FM + "::" + FM, 0)], enforce=FM + "_ctor_0",
+          desc="the default-constructed (empty) attribute set carries the hash of its content"),
+    Proof("FilteredMap_UpdateHash", [(FM + "::UpdateHash", 0)], enforce=FM + "_UpdateHash"),
+    Proof("FilteredMap_equal", [(FM + "::operator==", 1)], enforce=FM + "_op_eq"),
+]
+for _p in proofs_fm:
+    _p.tu = TU_FM
+    _p.pre_c = FM_PRE
+    _p.post_struct_c = FM_POST
+    _p.spec_headers = ()
+    _p.force_records = ("nostd::string_view",)
+    _p.configure = _configure_fm
+    _p.own_config = True
+    _p.contracts = contracts_fm
+    _p.umap = True
+    _p.defines_c = "typedef struct xc_attrval { unsigned long id; } xc_attrval;\n#define XC_UMAP_VAL xc_attrval\n#define XC_UMAP_ZERO {0}\n"
+    _p.timeout = 300
+proofs += proofs_fm
+
+
+def refute_foam(mod, proof, violations, ix, workdir, seed):
+    """directed native search: FilteredOrderedAttributeMap objects built along every constructor path (orders, duplicates, filters); equal
+    contents must compare equal and hash equally"""
+    src = ["sdk/src/metrics/state/filtered_ordered_attribute_map.cc"]
+    r = R.native_check("c08_foam_native", ["c08_foam_native.cc"], [], ["-O1"], repo_sources=src)
+    r["input"] = {"driver_args": [], "meaning": "no arguments: the driver builds 37 attribute sets along every constructor path and compares all pairs", "found_by": "directed native search (refute mode)"}
+    return r if r["reproduced"] else None
+
+
+for _p in proofs_fm:
+    refuters[_p.name] = refute_foam
